@@ -252,7 +252,7 @@ BINDERS = [s for s in SOURCES if s.startswith("binder-")]
 
 ASSOPS = ["+=", "-=", "*=", "/=", "%=", "&=", "|=", "^=", "<<=", ">>="]
 INT_FORMS = ["op" + o for o in ASSOPS] + ["pre++", "post++", "pre--", "post--", "nested-rhs", "preinc-postinc", "for-step"]
-ANY_FORMS = ["=", "iif-then", "iif-else", "comma-list", "nested-lhs", "fun-ref", "fun-ref-iif", "inst-ref"]
+ANY_FORMS = ["=", "iif-then", "iif-else", "comma-list", "nested-lhs", "fun-ref", "fun-ref-iif", "inst-ref", "spawn-ref"]
 FORMS = ANY_FORMS + INT_FORMS
 
 
@@ -260,7 +260,7 @@ class Case:
     pass
 
 
-def build_case(r, source, form, scope, const, t, path, shape, xml):
+def build_case(r, source, form, scope, const, t, path, shape, xml, uninst=False):
     """-> Case with .text (model), .meta   or None when the combination does not exist"""
     binder = source in BINDERS
     if scope not in SOURCES[source]:
@@ -277,6 +277,8 @@ def build_case(r, source, form, scope, const, t, path, shape, xml):
         return None
     if form == "for-step" and (scope == "edge" or hook):
         return None
+    if form == "spawn-ref" and scope != "edge":
+        return None          # `spawn` is an update of an edge
     if binder and (path or not t.is_leaf() or t.kind not in ("bint", "scalar")):
         return None
     if source == "elem-typedef-const" and t.kind != "arr":
@@ -431,10 +433,16 @@ def build_case(r, source, form, scope, const, t, path, shape, xml):
         stmt = "gref(%s)" % (E if form == "fun-ref" else "b0 ? %s : m2" % E)
     elif form == "inst-ref":
         stmt = None
+    elif form == "spawn-ref":
+        if et.kind not in ("int", "bint", "bool"):
+            return None      # parameters of dynamic templates are integers or booleans
+        # the object is handed to a non-const reference parameter of a dynamic template
+        g.append("dynamic DC(%s &p);" % etn)
+        stmt = "spawn DC(%s)" % E
     else:
         raise AssertionError(form)
 
-    if et.kind == "scalar" and form in ("iif-then", "iif-else", "fun-ref-iif", "fun-ref", "inst-ref"):
+    if et.kind == "scalar" and form in ("iif-then", "iif-else", "fun-ref-iif", "fun-ref", "inst-ref", "spawn-ref"):
         return None   # (a scalar variable is refused for `scalar &p`: that is finding F-C14-2 of property C14, not a C12 matter)
     if et.kind == "scalar" and scope in ("fun", "tfun") and not const:
         return None   # scalar locals are not allowed in functions: the binder's twin cannot be declared there
@@ -504,7 +512,12 @@ def build_case(r, source, form, scope, const, t, path, shape, xml):
     if fun_text:
         gtext += "\n" + fun_text
     templates = []
+    if form == "spawn-ref":
+        templates.append(("DC", ["%s &p" % etn], "", "", "", "m0 = 0", "SKIP", []))       # the definition of the dynamic template
     if templ:
+        # every fourth model leaves the template that holds the write off the system line: the type checker still checks it
+        if uninst and not tparams:
+            templ = templ[:6] + ("SKIP",) + templ[7:]
         templates.append(templ)
     for i in insts:
         templates.append(i)
@@ -513,7 +526,7 @@ def build_case(r, source, form, scope, const, t, path, shape, xml):
     k.text = render_xml(gtext, templates) if xml else render_xta(gtext, templates)
     k.mode = "XML" if xml else "XTA"
     k.meta = {"source": source_full, "form": form, "scope": scope, "shape": shape, "const": const, "target": target,
-              "leaf": et.kind, "decl": dsx, "site": site}
+              "leaf": et.kind, "decl": dsx, "site": site, "instantiated": not (uninst and templ is not None and not tparams)}
     return k
 
 
@@ -528,7 +541,9 @@ def render_xta(gtext, templates):
             labels += "guard %s; " % guard
         labels += "assign %s; " % upd
         out.append("process %s(%s) { %s state s0; init s0; trans s0 -> s0 { %s}; }" % (name, ", ".join(params), decls, labels))
-        if isinstance(inst, tuple):
+        if inst == "SKIP":
+            pass
+        elif isinstance(inst, tuple):
             out += inst[0]
             procs.append(inst[1])
         elif inst:
@@ -566,7 +581,9 @@ def render_xml(gtext, templates):
         if upd:
             out.append('<label kind="assignment">%s</label>' % xesc(upd))
         out.append("</transition></template>")
-        if isinstance(inst, tuple):
+        if inst == "SKIP":
+            pass
+        elif isinstance(inst, tuple):
             sysdecl += inst[0]
             procs.append(inst[1])
         elif inst:
@@ -574,6 +591,9 @@ def render_xml(gtext, templates):
             procs.append(inst)
         else:
             procs.append(name)
+    if not procs:
+        out.append('<template><name>P0</name><location id="idp0"><name>s0</name></location><init ref="idp0"/></template>')
+        procs.append("P0")
     out.append("<system>%s\nsystem %s;</system>" % (xesc("\n".join(sysdecl)), ", ".join(procs)))
     out.append("</nta>")
     return "\n".join(out) + "\n"
@@ -593,7 +613,7 @@ def gen_cases(ctx):
                 for form in FORMS:
                     for const in (True, False):
                         for xml in ((False, True) if (scope == "edge" or ctx.thorough) else (r.random() < 0.3,)):
-                            k = build_case(r, source, form, scope, const, mk(), path, shape, xml)
+                            k = build_case(r, source, form, scope, const, mk(), path, shape, xml, uninst=(len(cases) % 4 == 3))
                             if k:
                                 cases.append(k)
     # binders range over bounded integers / scalar sets
@@ -625,7 +645,7 @@ def gen_cases(ctx):
         for const in (True, False):
             r.setstate(st)
             tt = clone_type(t)
-            k = build_case(r, source, form, scope, const, tt, path, "deep:" + shape, xml)
+            k = build_case(r, source, form, scope, const, tt, path, "deep:" + shape, xml, uninst=(tries % 4 == 3))
             if k:
                 cases.append(k)
     return cases, n_exh
